@@ -519,6 +519,17 @@ func checkProperty(id, tier string) int {
 	trusted := map[string]bool{}
 	var fnNames []string
 	totalPaths := 0
+	otherKnown := map[string]bool{}
+	for _, k := range known {
+		if k.Property != id && k.Status == "known" {
+			otherKnown[k.Obligation] = true
+		}
+	}
+	for _, k := range known {
+		if k.Property == id && k.Status == "known" {
+			delete(otherKnown, k.Obligation)
+		}
+	}
 	for _, r := range runs {
 		fnNames = append(fnNames, fnDisplay(r.fn))
 		totalPaths += r.paths
@@ -543,6 +554,11 @@ func checkProperty(id, tier string) int {
 				continue
 			}
 			skip := false
+			if otherKnown[o.Name] {
+				// recorded as a known finding of another property: that property's
+				// check reports it, this one does not claim the obligation
+				skip = true
+			}
 			for _, ex := range prop.ExcludeObligations {
 				if strings.Contains(o.Name, ex) {
 					skip = true
